@@ -220,6 +220,20 @@ class Taint:
                     p = t["args"][0].get("c") or t["args"][0].get("m")
                     if p is not None:
                         ch |= self._add_through(b, p["l"], {C, L})
+        # second implicit flow: a scalar state field of the block assigned in a content-controlled block (`if sign != self.last_sign
+        # { self.last_boundary = self.pos; }`) holds a value that depends on the content (when it was last assigned)
+        if True:
+            for bi in ctrl:
+                for s in b.blocks[bi]["stmts"]:
+                    if s["k"] != "assign":
+                        continue
+                    d = s["dst"]
+                    if d["l"] == 1 and d["p"] and d["p"][0] == "*":
+                        fld = [pr for pr in d["p"] if _fld_ok(pr)]
+                        if fld and C not in self.F[(fld[-1]["o"], fld[-1]["n"])]:
+                            self.F[(fld[-1]["o"], fld[-1]["n"])] |= {C}
+                            self._trace("%s.%s" % (fld[-1]["o"], fld[-1]["n"]), b, "implicit: assigned under content control L%s" % s["sp"]["l"])
+                            ch = True
         # closure item params
         if b.kind == "closure":
             bits = self.closure_args.get(b.path)
